@@ -42,7 +42,9 @@ func writerState(side ref.Side) ws.State {
 // build constructs the writer; ok=false when the constructor legitimately
 // panics for this size ("buffer is too small").
 func build(cfg Config, dst *xport.Rec) (w *wsutil.Writer, model *wops.Model, ok bool) {
-	st := writerState(cfg.Side)
+	// the writer only cares about the side bit: on a connection with a negotiated extension the state also
+	// carries StateExtended (and the caller may pass StateFragmented along); neither may change anything
+	st := writerState(cfg.Side) | []ws.State{0, ws.StateExtended, ws.StateFragmented, ws.StateExtended | ws.StateFragmented}[(cfg.N+int(cfg.Op)+cfg.Ext)%4]
 	op := ws.OpCode(cfg.Op)
 	defer func() {
 		if p := recover(); p != nil {
@@ -285,8 +287,8 @@ func main() {
 		Property: "C06",
 		Level:    "exploration",
 		Rule: "cases: every sequence of depth 3 (quick) / 4 (thorough) over a 30-op alphabet {Write,ReadFrom,WriteThrough} x sizes {0,1,avail-1,avail,avail+1,size,size+1,2size+3} resolved against the live buffer, Grow x 4, FlushFragment, Flush (+ a closing Flush) for 8 configurations (tiny/125/126-boundary buffers, both sides and zero state, DisableFlush, RSV2 extension, wsflate.MessageState, pooled GetWriter); " +
-			"then random sequences of up to 60 ops over all 5 constructors x sizes around the 125/126 and 65535/65536 reservation thresholds. After EVERY call the recording destination is re-parsed by the reference parser and the contract model is checked (whole frames at call boundary, opcode/fin/rsv/mask per frame, plaintext == position-tagged accepted bytes, clean flush emits nothing, fits => one frame, DisableFlush => nothing before Flush and one frame). evaluations = API calls checked; distinct = (config, first two ops) / (config, length decile, op kinds).",
+			"then random sequences of up to 60 ops over all 5 constructors x sizes around the 125/126 and 65535/65536 reservation thresholds. After EVERY call the recording destination is re-parsed by the reference parser and the contract model is checked (whole frames at call boundary, opcode/fin/rsv/mask per frame, plaintext == position-tagged accepted bytes, clean flush emits nothing, fits => one frame, DisableFlush => nothing before Flush and one frame). Plus the one-call helpers WriteMessage / Write{Client,Server}{Message,Text,Binary} x 24 sizes x 3 rounds: exactly one final frame of the given opcode, masked iff client-side, payload == the caller's bytes, caller's slice intact. Built against the poisoning pool shim (a buffer returned to the byte pool is overwritten at once), so a frame that refers to a buffer it already gave back shows the pattern on the wire. evaluations = API calls checked; distinct = (config, first two ops) / (config, length decile, op kinds).",
 		Assumptions: []string{"reference frame parser ref.ParseFrames", "fragment boundaries are left to the implementation except in the three clauses the statement fixes", "payload bytes are a position-tagged stream so loss/duplication/reordering is visible"},
-		Subs:        []mon.Sub{subEnum(), subRandom(), subOpcodes()},
+		Subs:        []mon.Sub{subEnum(), subRandom(), subOpcodes(), subWriteMessage()},
 	})
 }
